@@ -53,7 +53,11 @@ Record obs := Obs' { o_res : cres; o_v1 : list N; o_v2 : oform; o_skip : bool }.
 Definition Obs (r : cres) (v1 : list N) (v2 : oform) : obs := Obs' r v1 v2 false.
 Definition ObsNone (r : cres) : obs := Obs' r [] [] true.
 Record case := mk_case {
-  c_mw : N; c_univ : list (N * blk); c_gen : index; c_L0 : ledger; c_tip0 : index;
+  c_mw : N;      (* State.MaxBlockWeight: what one mined block takes *)
+  c_capw : N;    (* a tenth of the pool's capacity (the repository's default capacity is ten blocks:
+                    then this is [c_mw]); the harness measures the capacity on the implementation *)
+  c_md : nat;    (* the supported rebase distance, measured on the implementation *)
+  c_univ : list (N * blk); c_gen : index; c_L0 : ledger; c_tip0 : index;
   c_trace : list (cop * obs)
 }.
 
@@ -90,52 +94,52 @@ Definition lres_to (r : lres) : cres :=
   match r with LFound t => XFound (a_id t) | LAbsent => XAbsent | LPanic => XPanic end.
 
 (** one call: the model's result and next state *)
-Definition cstep (mw : N) (gen : index) (s : rstate) (o : cop) : rstate * cres :=
+Definition cstep (mw capw : N) (md : nat) (gen : index) (s : rstate) (o : cop) : rstate * cres :=
   let L := r_L s in
   let U := r_U s in
   match o with
-  | CAdd1 set => let '(p', v) := add_v1 L mw (r_p s) set in (RS U L (r_tip s) p', XVerdict (verdict_class v))
+  | CAdd1 set => let '(p', v) := add_v1 L capw (r_p s) set in (RS U L (r_tip s) p', XVerdict (verdict_class v))
   | CAdd2 basis set =>
-      let r := match update_proofs U gen set basis (r_tip s) with ROk l => Some l | RErr _ => None end in
-      let '(p', v) := add_v2 L mw (r_p s) r in (RS U L (r_tip s) p', XVerdict (verdict_class v))
+      let r := match update_proofs md U gen set basis (r_tip s) with ROk l => Some l | RErr _ => None end in
+      let '(p', v) := add_v2 L capw (r_p s) r in (RS U L (r_tip s) p', XVerdict (verdict_class v))
   | CChain steps lr L' tip' upd => (RS (store U upd) L' tip' (chain_step steps lr (r_p s)), XNone)
-  | CStore upd => (RS (store U upd) L (r_tip s) (revalidate L mw (r_p s)), XNone)
+  | CStore upd => (RS (store U upd) L (r_tip s) (revalidate L capw (r_p s)), XNone)
   | CLook v2 id =>
-      (RS U L (r_tip s) (revalidate L mw (r_p s)),
-       lres_to (if v2 then lookup_v2 L mw (r_p s) id else lookup_v1 L mw (r_p s) id))
-  | CQuery => (RS U L (r_tip s) (revalidate L mw (r_p s)), XNone)
+      (RS U L (r_tip s) (revalidate L capw (r_p s)),
+       lres_to (if v2 then lookup_v2 L capw (r_p s) id else lookup_v1 L capw (r_p s) id))
+  | CQuery => (RS U L (r_tip s) (revalidate L capw (r_p s)), XNone)
   | CMine v2a arb =>
-      let p := revalidate L mw (r_p s) in
+      let p := revalidate L capw (r_p s) in
       (RS U L (r_tip s) p, XIds (map a_id (mine_block mw v2a arb (txns p) (v2txns p))))
   | CTxSet basis t =>
-      (RS U L (r_tip s) (revalidate L mw (r_p s)),
-       match v2_transaction_set U gen L mw (r_tip s) (r_p s) basis t with
+      (RS U L (r_tip s) (revalidate L capw (r_p s)),
+       match v2_transaction_set md U gen L capw (r_tip s) (r_p s) basis t with
        | SOk b l => XOk b (form l) | SErr e => XErr (err_class e) | SPanic => XPanic end)
   | CParents t =>
-      let p := revalidate L mw (r_p s) in
+      let p := revalidate L capw (r_p s) in
       (RS U L (r_tip s) p,
        match unconfirmed_parents (parent_map (txns p)) (txns p) t with
        | PList l => XIds (map a_id l) | PPanic => XPanic end)
   | CUpdate txs from to =>
-      (s, match update_set U gen txs from to with
+      (s, match update_set md U gen txs from to with
           | ROk l => XOk to (form l) | RErr e => XErr (err_class e) end)
   end.
 
-Fixpoint check_trace (mw : N) (gen : index) (s : rstate) (t : list (cop * obs)) : bool :=
+Fixpoint check_trace (mw capw : N) (md : nat) (gen : index) (s : rstate) (t : list (cop * obs)) : bool :=
   match t with
   | [] => true
   | (o, ob) :: t' =>
-      let '(s1, r) := cstep mw gen s o in
-      if o_skip ob then res_eqb r (o_res ob) && check_trace mw gen s1 t' else
+      let '(s1, r) := cstep mw capw md gen s o in
+      if o_skip ob then res_eqb r (o_res ob) && check_trace mw capw md gen s1 t' else
       (* the harness reads both pool lists after the call *)
-      let p := revalidate (r_L s1) mw (r_p s1) in
+      let p := revalidate (r_L s1) capw (r_p s1) in
       res_eqb r (o_res ob) && bool_decide (map a_id (txns p) = o_v1 ob) &&
       bool_decide (form (v2txns p) = o_v2 ob) &&
-      check_trace mw gen (RS (r_U s1) (r_L s1) (r_tip s1) p) t'
+      check_trace mw capw md gen (RS (r_U s1) (r_L s1) (r_tip s1) p) t'
   end.
 
 Definition check_case (c : case) : bool :=
-  check_trace (c_mw c) (c_gen c) (RS (list_to_map (c_univ c)) (c_L0 c) (c_tip0 c) pool0) (c_trace c).
+  check_trace (c_mw c) (c_capw c) (c_md c) (c_gen c) (RS (list_to_map (c_univ c)) (c_L0 c) (c_tip0 c) pool0) (c_trace c).
 
 Fixpoint mismatches_from (i : N) (cs : list case) : list N :=
   match cs with
@@ -146,19 +150,19 @@ Fixpoint mismatches_from (i : N) (cs : list case) : list N :=
 Definition mismatches := mismatches_from 0.
 
 (** index of the first trace entry on which model and observation disagree (for debugging) *)
-Fixpoint first_bad (mw : N) (gen : index) (s : rstate) (t : list (cop * obs)) (i : N)
+Fixpoint first_bad (mw capw : N) (md : nat) (gen : index) (s : rstate) (t : list (cop * obs)) (i : N)
   : option (N * cres * list N * oform) :=
   match t with
   | [] => None
   | (o, ob) :: t' =>
-      let '(s1, r) := cstep mw gen s o in
+      let '(s1, r) := cstep mw capw md gen s o in
       if o_skip ob then
-        (if res_eqb r (o_res ob) then first_bad mw gen s1 t' (N.succ i) else Some (i, r, [], []))
+        (if res_eqb r (o_res ob) then first_bad mw capw md gen s1 t' (N.succ i) else Some (i, r, [], []))
       else
-      let p := revalidate (r_L s1) mw (r_p s1) in
+      let p := revalidate (r_L s1) capw (r_p s1) in
       if res_eqb r (o_res ob) && bool_decide (map a_id (txns p) = o_v1 ob) && bool_decide (form (v2txns p) = o_v2 ob)
-      then first_bad mw gen (RS (r_U s1) (r_L s1) (r_tip s1) p) t' (N.succ i)
+      then first_bad mw capw md gen (RS (r_U s1) (r_L s1) (r_tip s1) p) t' (N.succ i)
       else Some (i, r, map a_id (txns p), form (v2txns p))
   end.
 Definition first_bad_case (c : case) :=
-  first_bad (c_mw c) (c_gen c) (RS (list_to_map (c_univ c)) (c_L0 c) (c_tip0 c) pool0) (c_trace c) 0.
+  first_bad (c_mw c) (c_capw c) (c_md c) (c_gen c) (RS (list_to_map (c_univ c)) (c_L0 c) (c_tip0 c) pool0) (c_trace c) 0.
